@@ -672,77 +672,88 @@ theorem ctfTR_q_good (target : MG Name) (ds : List Domain) (o c : Event)
     QGood target ds o c :=
   qGood_holds target ds o c hv hwf hds hbiT hplain
 
-/-- **C09, "never another error", Algorithm 3.**  An input accepted by the conditional validator, on graphs built by
-`from_edges`, with query variables as the public wrapper builds them and selection diagrams that agree with the target
-graph (`EventVarsPlain`, `DomainsAgree`: the hypotheses of `ctfTRu_no_internal_error_partial`), is answered or refused —
-`ctfTR` returns no error at all — outside the crash classes, each a decidable predicate on the input:
-* `OutcomesFound = false`: some outcome variable `Y_x` is not found in the ancestral components under its own name
-  (they store `‖Y_x‖` of the graph without the edges out of the conditioned ancestors): `ValueError('empty list for the
-  event')` from Algorithm 2's validator when no outcome is found, `KeyError` of the fifth final check when some are
-  (findings `crash:ctfTR-derived-event-rejected`, `crash:ctfTR-final-check`);
-* `DstarOneWorld = false`: `D*` names a vertex in two worlds (then the dict of the final checks keeps one of two values);
-* `OutcomeNotCondition = false`: an outcome shares its vertex with a condition (fifth final check);
-(Every vertex is a variable of every domain's distribution — `PopsCoverNodes`, needed by the third final check — because
-the validator checks it: `popsCover_of_validateC`.) -/
-theorem ctfTR_no_internal_error_partial (target : MG Name) (ds : List Domain) (o c : Event)
+/-- **C09, "never another error", Algorithm 3 — for every validated input** (after `fix:` f335599; before it this was
+FALSE: the outcomes were looked up in the ancestral components under their raw name, and an outcome `Y_x` whose subscript
+is not kept was not found — `ValueError('empty list for the event')` from Algorithm 2's validator when no outcome was
+found, `KeyError` of the fifth final check when some were; former findings `crash:ctfTR-derived-event-rejected`,
+`crash:ctfTR-final-check`; former witness `a3Miss`, now an answered regression case).
+An input accepted by the conditional validator is answered or refused — `ctfTR` returns no error at all.  No class of
+queries is excluded; the remaining hypotheses describe the INPUT FORMAT, not the query:
+* `target.WF`, `d.graph.WF`: graphs built by `from_edges`;
+* `EventVarsPlain`: query variables as the public wrapper `conditional_cft` builds them (no value mark on the variable,
+  subscripts a frozenset);
+* `PopsPlain`: the children of every domain's `PopulationProbability` are plain `Variable`s — the "joint distribution tag"
+  `PP[π](V)` of C09's quantifier (for other distributions see `ctfTR_no_internal_error_anypop_partial` and `a3Shared`);
+* `DomainsAgree`: every selection diagram keeps the target's bidirected edges between non-policy variables and has no
+  bidirected edge at a selection node — the hypothesis Algorithm 2 needs (`ctfTRu_no_internal_error_partial`; without
+  it Algorithm 4 raises `ValueError`: open finding `crash:sigmaTR-district-split`, witness `w1` above).
+What changed in the proof: every outcome is found under its lookup key (`Ctf.ancestralSetRoot_mem`: `‖W_t‖` of the graph
+without the edges out of the conditioned ancestors IS the member of `An(W_t)` that stands for `W_t`;
+`line2C_ok`), so `D*` is never empty and the fifth final check finds every outcome's vertex. -/
+theorem ctfTR_no_internal_error (target : MG Name) (ds : List Domain) (o c : Event)
     (hv : validateC target ds o c = .ok ()) (hwf : target.WF) (hds : ∀ d ∈ ds, d.graph.WF)
-    (hdom : DomainsAgree target ds) (hplain : EventVarsPlain (o ++ c))
-    (hfound : OutcomesFound target o c = true) (hone : DstarOneWorld target o c = true)
-    (hdisj : OutcomeNotCondition o c = true) :
+    (hdom : DomainsAgree target ds) (hplain : EventVarsPlain (o ++ c)) (hpp : PopsPlain ds) :
     ∀ err, ctfTR target ds o c ≠ .error err :=
-  ctfTR_total_of_parts target ds o c hv hwf hds hdom hplain hfound hone hdisj (popsCover_of_validateC target ds o c hv)
-    (qGood_holds target ds o c hv hwf hds (fun d hd => (hdom d hd).2) hplain)
+  ctfTR_total_plain target ds o c hv hwf hds hdom hplain hpp
 
-/-- the composition behind it, with the facts about the domains' distributions and about `Q` as hypotheses
-(`PopsCoverNodes`, `QGood`; they hold by `popsCover_of_validateC` and `ctfTR_q_good`) -/
-theorem ctfTR_no_internal_error_of_parts (target : MG Name) (ds : List Domain) (o c : Event)
-    (hv : validateC target ds o c = .ok ()) (hwf : target.WF) (hds : ∀ d ∈ ds, d.graph.WF)
-    (hdom : DomainsAgree target ds) (hplain : EventVarsPlain (o ++ c))
-    (hfound : OutcomesFound target o c = true) (hone : DstarOneWorld target o c = true)
-    (hdisj : OutcomeNotCondition o c = true) (hpop : PopsCoverNodes target ds) (hq : QGood target ds o c) :
-    ∀ err, ctfTR target ds o c ≠ .error err :=
-  ctfTR_total_of_parts target ds o c hv hwf hds hdom hplain hfound hone hdisj hpop hq
-
-/-- with the trichotomy: such an input is answered or refused -/
+/-- with the trichotomy: every such input is answered or refused -/
 theorem ctfTR_answers_or_fails (target : MG Name) (ds : List Domain) (o c : Event)
     (hv : validateC target ds o c = .ok ()) (hwf : target.WF) (hds : ∀ d ∈ ds, d.graph.WF)
-    (hdom : DomainsAgree target ds) (hplain : EventVarsPlain (o ++ c))
-    (hfound : OutcomesFound target o c = true) (hone : DstarOneWorld target o c = true)
-    (hdisj : OutcomeNotCondition o c = true) :
+    (hdom : DomainsAgree target ds) (hplain : EventVarsPlain (o ++ c)) (hpp : PopsPlain ds) :
     (∃ a, ctfTR target ds o c = .ok (some a)) ∨ ctfTR target ds o c = .ok none := by
   rcases ctfTR_trichotomy target ds o c hv with h | h | ⟨err, herr, _⟩
   · exact Or.inl h
   · exact Or.inr h
-  · exact absurd herr (ctfTR_no_internal_error_partial target ds o c hv hwf hds hdom hplain hfound hone hdisj err)
+  · exact absurd herr (ctfTR_no_internal_error target ds o c hv hwf hds hdom hplain hpp err)
+
+/-- **arbitrary domain distributions** (a `PopulationProbability` that lists counterfactual variables): Algorithm 3 never
+raises when no outcome shares its vertex with a condition (`OutcomeNotCondition`, decidable; NEEDED for such
+distributions: witness `a3Shared` below) -/
+theorem ctfTR_no_internal_error_anypop_partial (target : MG Name) (ds : List Domain) (o c : Event)
+    (hv : validateC target ds o c = .ok ()) (hwf : target.WF) (hds : ∀ d ∈ ds, d.graph.WF)
+    (hdom : DomainsAgree target ds) (hplain : EventVarsPlain (o ++ c)) (hdisj : OutcomeNotCondition o c = true) :
+    ∀ err, ctfTR target ds o c ≠ .error err :=
+  ctfTR_total_without_oneWorld target ds o c hv hwf hds hdom hplain hdisj
+
+/-- the composition behind both, with the facts about the domains' distributions and about `Q` as hypotheses
+(`QCovers`: the vertex of an outcome that is also a condition vertex occurs in `Q`; `PopsCoverNodes`, `QGood`; they hold
+by `qCovers_of_popsPlain` / `qCovers_of_disjoint`, `popsCover_of_validateC` and `ctfTR_q_good`) -/
+theorem ctfTR_no_internal_error_of_parts (target : MG Name) (ds : List Domain) (o c : Event)
+    (hv : validateC target ds o c = .ok ()) (hwf : target.WF) (hds : ∀ d ∈ ds, d.graph.WF)
+    (hdom : DomainsAgree target ds) (hplain : EventVarsPlain (o ++ c))
+    (hcov : QCovers target ds o c) (hpop : PopsCoverNodes target ds) (hq : QGood target ds o c) :
+    ∀ err, ctfTR target ds o c ≠ .error err :=
+  ctfTR_total_of_cover target ds o c hv hwf hds hdom hplain hcov hpop hq
+
+/-- **every outcome is found** (the fact the fix establishes): lines 1-2 never raise, every outcome has a lookup key with
+its graph vertex and value, and every lookup key is a variable of `D*` -/
+theorem ctfTR_outcomes_found (target : MG Name) (hwf : target.WF) (o c : Event)
+    (ho : ∀ p ∈ o, VarOK target p.1) (hc : ∀ p ∈ c, VarOK target p.1) (hos : ∀ p ∈ o, p.1.star = none) :
+    ∃ lk D, lookupOutcomes target o c = .ok lk ∧ dstarVars target o c = .ok D ∧
+      (∀ p ∈ o, ∃ p' ∈ lk, p'.1.name = p.1.name ∧ p'.2 = p.2) ∧ ∀ p' ∈ lk, p'.1 ∈ D := by
+  obtain ⟨lk, D, _, _, hlk, hrel, hfound, hD, _⟩ := line2C_ok target hwf o c ho hc hos
+  exact ⟨lk, D, hlk, hD, fun p hp => hrel.of_out p hp, hfound⟩
 
 /-- the parts, for reference: lines 1-2 never raise (`line2C_ok`), Algorithm 2's validator accepts a non-empty `D*`
-(`validateU_dstar`), and line 4 never raises under the stated facts (`line4C_ok`) -/
+(`validateU_dstar`), and line 4 never raises under the stated facts (`line4C_ok_of_cover`) -/
 theorem ctfTR_line2_total (target : MG Name) (hwf : target.WF) (o c : Event)
-    (ho : ∀ p ∈ o, VarOK target p.1) (hc : ∀ p ∈ c, VarOK target p.1) :
+    (ho : ∀ p ∈ o, VarOK target p.1) (hc : ∀ p ∈ c, VarOK target p.1) (hos : ∀ p ∈ o, p.1.star = none) :
     ∃ dstar dNames, line2C target o c = .ok (dstar, dNames) := by
-  obtain ⟨_, dstar, dNames, _, h, _⟩ := line2C_ok target hwf o c ho hc
+  obtain ⟨_, _, dstar, dNames, _, _, _, _, h, _⟩ := line2C_ok target hwf o c ho hc hos
   exact ⟨dstar, dNames, h⟩
 
--- OPEN: ctfTR_no_internal_error (Algorithm 3, for every validated input)
---   theorem ctfTR_no_internal_error (hv : validateC target ds o c = .ok ()) (hwf : target.WF) (hds : ∀ d ∈ ds, d.graph.WF)
---       (hdom : DomainsAgree target ds) (hplain : EventVarsPlain (o ++ c)) : ∀ err, ctfTR target ds o c ≠ .error err
---   FALSE of the current code without `OutcomesFound`: witness `a3Miss` below (ValueError from Algorithm 2's validator on
---   the empty D*), confirmed on the Python (findings crash:ctfTR-derived-event-rejected, crash:ctfTR-final-check).
---   The two other class hypotheses of `ctfTR_no_internal_error_partial` are DECIDED (end of this section):
---   * `DstarOneWorld` is NOT needed: `ctfTR_no_internal_error_found_partial`.  A vertex in two worlds either disappears
---     in the conversion of `D*` to ctf-factor form (both copies become `W_{pa(W)}` with the same parent values: SIMPLIFY
---     binds a variable once) or makes line 3 of Algorithm 2 answer FAIL (two values of one parent in one ctf-factor), so
---     the simplified event of an ANSWER binds every vertex once (`ffEvent_answer_fun`).  Non-vacuity: `a3Two`.
+-- (the former `-- OPEN: ctfTR_no_internal_error` block is closed by `ctfTR_no_internal_error` above.)
+-- Decided on the way (round 4), still valid:
+--   * `DstarOneWorld` is not needed: a vertex in two worlds either disappears in the conversion of `D*` to ctf-factor form
+--     (both copies become `W_{pa(W)}` with the same parent values: SIMPLIFY binds a variable once) or makes line 3 of
+--     Algorithm 2 answer FAIL (two values of one parent in one ctf-factor), so the simplified event of an ANSWER binds
+--     every vertex once (`ffEvent_answer_fun`, `ctfTR_simplified_binds_once`).  Non-vacuity: `a3Two`.
 --   * `OutcomeNotCondition` IS needed for arbitrary domain distributions: witness `a3Shared` below — the domain's
 --     distribution `PP[π](X, Y, Y_x)` lists a counterfactual variable next to its vertex, Lemma 1 of Tian's IDENTIFY
 --     writes the factor of `Y` in that world, `Y` does not occur in `Q`, and the fifth final check raises `KeyError` for
 --     `P*(Y = y | Y = y')` after both validators accepted the input; confirmed on the Python
 --     (tools/c09_popworld_witness.py; not expressible in the case format of harness/props/c09.py, whose domains carry
---     `PP[π](V)` only).  It is NOT needed for distributions over plain variables (`PopsPlain`, what `PP[π](V)` is):
---     `ctfTR_no_internal_error_plain_partial` — `OutcomesFound` is then the only crash class of Algorithm 3.
---   No run of ./check C09 produced an exception on an input with `OutcomesFound = true` (4371 conditional cases of the
---   quick tier, seed 0: all 1785 internal errors have `OutcomesFound = false`; tools/c09_errsearch.py: 200000 cases biased
---   towards the two classes, 0 exceptions of the model with `OutcomesFound = true`).
+--     `PP[π](V)` only).  It is NOT needed for distributions over plain variables (`PopsPlain`, what `PP[π](V)` is).
 
 /-! ### non-vacuity for Algorithm 3: Example 4.5-like `P*(y_x | x')` on figure 2a (corpus), and a crash-class witness -/
 
@@ -760,20 +771,22 @@ example : popsCoverCheck fig2a [fig2dom1, fig2dom2] = true ∧ qGoodCheck fig2a 
 
 /-- the theorem applies to the example -/
 example : ∀ err, ctfTR fig2a [fig2dom1, fig2dom2] a3Out a3Cond ≠ .error err :=
-  ctfTR_no_internal_error_partial _ _ _ _ (by decide +kernel) (MG.wf_fromEdges _ _ _)
+  ctfTR_no_internal_error _ _ _ _ (by decide +kernel) (MG.wf_fromEdges _ _ _)
     (by intro d hd
         simp only [List.mem_cons, List.not_mem_nil, or_false] at hd
         rcases hd with rfl | rfl <;> exact MG.wf_fromEdges _ _ _)
-    fig2_domainsAgree (by unfold EventVarsPlain; decide) (by decide +kernel) (by decide +kernel) (by decide +kernel)
+    fig2_domainsAgree (by unfold EventVarsPlain; decide) (popsPlain_of_check _ (by decide +kernel))
 
 /-- the returned event of the example is `Y = y, X = x'` -/
 example : (match ctfTR fig2a [fig2dom1, fig2dom2] a3Out a3Cond with
     | .ok (some (_, some ev)) => decide (ev = [(Var.plain 2, some ⟨2, false⟩), (Var.plain 1, some ⟨1, true⟩)])
     | _ => false) = true := by decide +kernel
 
-/-- **crash-class witness `a3Miss`** (finding `crash:ctfTR-derived-event-rejected`, as the Python): two isolated nodes
-`X`, `Y`; `P*(Y_x = y | X = x)`.  The components store `‖Y_x‖ = Y`, the outcome `Y_x` is not found, `D*` is empty and
-Algorithm 2's validator raises `ValueError` after the conditional validator accepted the input. -/
+/-- **former crash-class witness `a3Miss`** (former finding `crash:ctfTR-derived-event-rejected`; corpus/C09 keeps it as
+a regression case): two isolated nodes `X`, `Y`; `P*(Y_x = y | X = x)`.  The components store `‖Y_x‖ = Y`; before `fix:`
+f335599 the outcome `Y_x` was not found under its raw name, `D*` was empty and Algorithm 2's validator raised
+`ValueError` after the conditional validator had accepted the input.  Now the outcome is looked up as `Y`, and the query
+is answered with the same expression as `P*(Y = y | X = x)`. -/
 def a3MissGraph : MG Name := MG.fromEdges [1, 2] [] []
 def a3MissDom : Domain :=
   { graph := MG.fromEdges [1, 2] [] [], topo := [1, 2], policy := [],
@@ -782,11 +795,29 @@ def a3MissOut : Event := [({ name := 2, ivs := [⟨1, false⟩] }, some ⟨2, fa
 def a3MissCond : Event := [({ name := 1 }, some ⟨1, false⟩)]
 
 example : validateC a3MissGraph [a3MissDom] a3MissOut a3MissCond = .ok () := by decide +kernel
+/-- the outcome is not a member of the components under its RAW name … -/
 example : OutcomesFound a3MissGraph a3MissOut a3MissCond = false := by decide +kernel
-example : isInternal "ValueError" (ctfTR a3MissGraph [a3MissDom] a3MissOut a3MissCond) = true := by decide +kernel
-/-- the same query with the minimal outcome `Y` is answered -/
-example : isAnswerWithEvent (ctfTR a3MissGraph [a3MissDom] [({ name := 2 }, some ⟨2, false⟩)] a3MissCond) = true := by
-  decide +kernel
+/-- … its lookup key is `Y` … -/
+example : lookupOutcomes a3MissGraph a3MissOut a3MissCond = .ok [({ name := 2 }, some ⟨2, false⟩)] := by decide +kernel
+/-- … and the query is answered, with the returned event of the query with the minimal outcome `Y` -/
+example : isAnswerWithEvent (ctfTR a3MissGraph [a3MissDom] a3MissOut a3MissCond) = true := by decide +kernel
+example : (match ctfTR a3MissGraph [a3MissDom] a3MissOut a3MissCond,
+      ctfTR a3MissGraph [a3MissDom] [({ name := 2 }, some ⟨2, false⟩)] a3MissCond with
+    | .ok (some (_, some ev)), .ok (some (_, some ev')) => decide (ev = ev')
+    | _, _ => false) = true := by decide +kernel
+/-- `ctfTR_no_internal_error` applies to it -/
+example : ∀ err, ctfTR a3MissGraph [a3MissDom] a3MissOut a3MissCond ≠ .error err :=
+  ctfTR_no_internal_error _ _ _ _ (by decide +kernel) (MG.wf_fromEdges _ _ _)
+    (by intro d hd
+        simp only [List.mem_singleton] at hd
+        subst hd; exact MG.wf_fromEdges _ _ _)
+    (by intro d hd
+        simp only [List.mem_singleton] at hd
+        subst hd
+        refine ⟨fun a b hab _ _ => ?_, fun a b hab => ?_⟩
+        · rw [a3MissGraph, MG.biEdge_fromEdges] at hab; simp at hab
+        · rw [a3MissDom, MG.biEdge_fromEdges] at hab; simp at hab)
+    (by unfold EventVarsPlain; decide) (popsPlain_of_check _ (by decide +kernel))
 
 /-- check 15 of the validators (`v in expression.get_variables()` for every graph vertex `v`) is a test on `Variable`
 OBJECTS: the distribution `PP[π1](Y_x)` names `X` and `Y` but contains neither as a plain variable, and is rejected (as
@@ -797,43 +828,7 @@ def a3PopDom : Domain :=
 example : validateU (MG.fromEdges [] [(1, 2)] []) [a3PopDom] [({ name := 2 }, some ⟨2, false⟩)] =
     .error (.invalidInput "ValueError") := by decide +kernel
 
-/-! ### the two other class hypotheses of `ctfTR_no_internal_error_partial`, decided -/
-
-/-- **`DstarOneWorld` is not needed.**  An input accepted by the conditional validator (graphs built by `from_edges`,
-`EventVarsPlain`, `DomainsAgree`) whose outcomes are all found in the ancestral components under their own name and
-share no vertex with a condition is answered or refused, whether or not `D*` names a vertex in two worlds: the simplified
-event of an answer of Algorithm 2 on `D*` binds every graph vertex once (Y0/Lemmas/CtfTrAlg3Err.lean:
-`ffEvent_answer_fun`, `line2_same_name`), so the dict of the final checks loses nothing. -/
-theorem ctfTR_no_internal_error_found_partial (target : MG Name) (ds : List Domain) (o c : Event)
-    (hv : validateC target ds o c = .ok ()) (hwf : target.WF) (hds : ∀ d ∈ ds, d.graph.WF)
-    (hdom : DomainsAgree target ds) (hplain : EventVarsPlain (o ++ c))
-    (hfound : OutcomesFound target o c = true) (hdisj : OutcomeNotCondition o c = true) :
-    ∀ err, ctfTR target ds o c ≠ .error err :=
-  ctfTR_total_without_oneWorld target ds o c hv hwf hds hdom hplain hfound hdisj
-
-/-- **`OutcomeNotCondition` is not needed for distributions over plain variables.**  When the children of every domain's
-`PopulationProbability` are plain `Variable`s (`PopsPlain`, e.g. `PP[π](V)`), an input accepted by the conditional
-validator whose outcomes are all found is answered or refused: `OutcomesFound` is the only crash class of Algorithm 3.
-(The expression `Q` of Algorithm 2 then mentions the vertex of every found outcome — a lower bound on the variables of
-IDENTIFY's expressions, Y0/Lemmas/CtfTrAlg3ErrQ.lean: `identify_low`, `qCovers_of_popsPlain` — which is what the fifth
-final check needs for an outcome that is also a condition.) -/
-theorem ctfTR_no_internal_error_plain_partial (target : MG Name) (ds : List Domain) (o c : Event)
-    (hv : validateC target ds o c = .ok ()) (hwf : target.WF) (hds : ∀ d ∈ ds, d.graph.WF)
-    (hdom : DomainsAgree target ds) (hplain : EventVarsPlain (o ++ c))
-    (hfound : OutcomesFound target o c = true) (hpp : PopsPlain ds) :
-    ∀ err, ctfTR target ds o c ≠ .error err :=
-  ctfTR_total_of_found target ds o c hv hwf hds hdom hplain hfound hpp
-
-/-- with the trichotomy -/
-theorem ctfTR_answers_or_fails_plain (target : MG Name) (ds : List Domain) (o c : Event)
-    (hv : validateC target ds o c = .ok ()) (hwf : target.WF) (hds : ∀ d ∈ ds, d.graph.WF)
-    (hdom : DomainsAgree target ds) (hplain : EventVarsPlain (o ++ c))
-    (hfound : OutcomesFound target o c = true) (hpp : PopsPlain ds) :
-    (∃ a, ctfTR target ds o c = .ok (some a)) ∨ ctfTR target ds o c = .ok none := by
-  rcases ctfTR_trichotomy target ds o c hv with h | h | ⟨err, herr, _⟩
-  · exact Or.inl h
-  · exact Or.inr h
-  · exact absurd herr (ctfTR_no_internal_error_plain_partial target ds o c hv hwf hds hdom hplain hfound hpp err)
+/-! ### the fact that replaces `DstarOneWorld` -/
 
 /-- the part that replaces `DstarOneWorld`: an answer of Algorithm 2 on `D*` binds every graph vertex once -/
 theorem ctfTR_simplified_binds_once (target : MG Name) (ds : List Domain) (o c : Event)
@@ -851,8 +846,9 @@ theorem ctfTR_simplified_binds_once (target : MG Name) (ds : List Domain) (o c :
     rcases List.mem_append.1 hp with h | h
     · exact List.mem_append_right _ h
     · exact List.mem_append_left _ h
-  obtain ⟨D, dstar', dNames', _, h2', _, hfacts⟩ := line2C_ok target hwf o c
+  obtain ⟨lk, D, dstar', dNames', _, _, _, _, h2', _, hfacts⟩ := line2C_ok target hwf o c
     (fun p hp => hok p (List.mem_append_left _ hp)) (fun p hp => hok p (List.mem_append_right _ hp))
+    (fun p hp => (hplain p (List.mem_append_left _ hp)).1)
   rw [h2] at h2'
   simp only [Except.ok.injEq, Prod.mk.injEq] at h2'
   obtain ⟨rfl, rfl⟩ := h2'
@@ -888,13 +884,13 @@ example : validateC a3TwoGraph [a3TwoDom] a3TwoOut a3TwoCond = .ok () := by deci
 example : OutcomesFound a3TwoGraph a3TwoOut a3TwoCond = true ∧ DstarOneWorld a3TwoGraph a3TwoOut a3TwoCond = false ∧
     OutcomeNotCondition a3TwoOut a3TwoCond = true := by decide +kernel
 example : isAnswerWithEvent (ctfTR a3TwoGraph [a3TwoDom] a3TwoOut a3TwoCond) = true := by decide +kernel
-/-- `ctfTR_no_internal_error_found_partial` applies to it (`ctfTR_no_internal_error_partial` does not) -/
+/-- `ctfTR_no_internal_error_anypop_partial` applies to it -/
 example : ∀ err, ctfTR a3TwoGraph [a3TwoDom] a3TwoOut a3TwoCond ≠ .error err :=
-  ctfTR_no_internal_error_found_partial _ _ _ _ (by decide +kernel) (MG.wf_fromEdges _ _ _)
+  ctfTR_no_internal_error_anypop_partial _ _ _ _ (by decide +kernel) (MG.wf_fromEdges _ _ _)
     (by intro d hd
         simp only [List.mem_singleton] at hd
         subst hd; exact MG.wf_fromEdges _ _ _)
-    a3Two_domainsAgree (by unfold EventVarsPlain; decide) (by decide +kernel) (by decide +kernel)
+    a3Two_domainsAgree (by unfold EventVarsPlain; decide) (by decide +kernel)
 
 /-- `P*(Y = y | Y_x = y)` on `X → Y`, `X ↔ Y` (X=0, Y=1) with the target distribution itself: the outcome `Y` is also a
 condition vertex, and `D*` names `Y` in two worlds -/
@@ -921,14 +917,13 @@ example : validateC a3BothGraph [a3BothDom] a3BothOut a3BothCond = .ok () := by 
 example : OutcomesFound a3BothGraph a3BothOut a3BothCond = true ∧ DstarOneWorld a3BothGraph a3BothOut a3BothCond = false ∧
     OutcomeNotCondition a3BothOut a3BothCond = false ∧ popsPlainCheck [a3BothDom] = true := by decide +kernel
 example : isAnswerWithEvent (ctfTR a3BothGraph [a3BothDom] a3BothOut a3BothCond) = true := by decide +kernel
-/-- `ctfTR_no_internal_error_plain_partial` applies to it -/
+/-- `ctfTR_no_internal_error` applies to it -/
 example : ∀ err, ctfTR a3BothGraph [a3BothDom] a3BothOut a3BothCond ≠ .error err :=
-  ctfTR_no_internal_error_plain_partial _ _ _ _ (by decide +kernel) (MG.wf_fromEdges _ _ _)
+  ctfTR_no_internal_error _ _ _ _ (by decide +kernel) (MG.wf_fromEdges _ _ _)
     (by intro d hd
         simp only [List.mem_singleton] at hd
         subst hd; exact MG.wf_fromEdges _ _ _)
-    a3Both_domainsAgree (by unfold EventVarsPlain; decide) (by decide +kernel)
-    (popsPlain_of_check _ (by decide +kernel))
+    a3Both_domainsAgree (by unfold EventVarsPlain; decide) (popsPlain_of_check _ (by decide +kernel))
 
 /-- **crash-class witness `a3Shared`: `OutcomeNotCondition` is needed for arbitrary distributions** (as the Python:
 `KeyError` of the fifth final check, "at least one variable in the event … is not a variable in the expression", after
